@@ -157,7 +157,7 @@ pub fn track_strategy(max_indices: usize) -> BoxedStrategy<CueTrack> {
         prop_oneof![3 => Just(false), 1 => Just(true)],
         any::<bool>(),
         any::<bool>(),
-        prop_oneof![5 => 1usize..=3, 2 => 1usize..=12, 1 => 1usize..=max_indices],
+        prop_oneof![10 => 1usize..=3, 4 => 1usize..=12, 2 => 1usize..=max_indices, 1 => Just(max_indices)],
     )
         .prop_flat_map(|(isrc, pre_emphasis, other_flag, has_pregap, n)| {
             // a pre-gap needs INDEX 01 as well
